@@ -307,7 +307,30 @@ def _int_b(ctx, f, e, branch, depth=0):
         res = symcase.Evaluator(ctx, decide).inline_call(f, e, {})
         if res is not None:
             return _int_b(ctx, f, res, branch, depth + 1)
-    t = text(e).replace(" ", "")
+    # an opaque integer: named by its expression, with the temporaries in it
+    # read under this branch (`cls.line_order[loop_rank]` where loop_rank was
+    # chosen by the same two-way test)
+    from ..symcase import clone
+
+    def sub(x, d_=0):
+        class S(ast.NodeTransformer):
+            def visit_Name(self, n):
+                if isinstance(n.ctx, ast.Load) and d_ < 4 and hasattr(n, "_parent"):
+                    v = _branch_def(ctx, f, n, branch)
+                    if isinstance(v, (ast.Name, ast.Attribute, ast.Subscript)) and \
+                            not any(isinstance(y, ast.Call) for y in ast.walk(v)):
+                        return sub(v, d_ + 1)
+                return n
+        # (visit a copy; the originals keep their parent links for the lookups)
+        if isinstance(x, ast.Name):
+            r = S().visit_Name(x)
+            return clone(r) if r is x else r
+        new = clone(x)
+        for orig, cp in zip(ast.walk(x), ast.walk(new)):
+            if hasattr(orig, "_parent"):
+                cp._parent = orig._parent
+        return S().visit(new)
+    t = text(sub(e)).replace(" ", "")
     # the two functions name their parameters alike; normalise cls / rank
     t = t.replace(f.params[0] + ".", "cls.").replace("[%s]" % f.params[1], "[rank]")
     return {"$" + t: 1}
@@ -433,6 +456,8 @@ def r2_flush(ctx):
     okw = False
     for c in pat.calls(wt, attr="write"):
         a0 = c.args[0] if c.args else None
+        if isinstance(a0, ast.Name):
+            a0 = pat.single_def(ctx, wt, a0)        # the text was built beforehand
         if isinstance(a0, ast.Call) and isinstance(a0.func, ast.Attribute) and \
                 a0.func.attr == "join" and a0.args:
             lst = a0.args[0]
